@@ -18,9 +18,10 @@ def ident(data, **kw):
     return data
 
 
-def setup(T, NODE, CTX, variant, context=False):
+def setup(T, NODE, CTX, variant, context=False, repl=False):
     S = S_()
     S.T, S.node, S.ctx, S.variant, S.context = T, NODE, CTX, variant, context
+    S.repl = repl
     if variant == "codec":
         S.enc = BasicEncoder(T).encode
         S.dec = BasicDecoder(T).decode
@@ -120,7 +121,39 @@ def expected_ser_trace(T, v):
     return out
 
 
+def repl_main(S, env):
+    """the hooks' return values are what is used"""
+    v = S.node.make(env)
+    items = v if isinstance(v, list) else [v]
+    st, d = call(S.enc, v)
+    if st == "exc":
+        return fail("C19/encode-raised:%s" % type(d).__name__, value=v, exc=d)
+    docs = d if isinstance(v, list) else [d]
+    for x, doc in zip(items, docs):
+        want = {"a": x.a + 1, "b": x.b, "extra": 1}
+        if doc != want:
+            return fail("C19/hook-return-value-not-used:serialize", value=x, got=doc, want=want)
+    for reset in (False, True):
+        ins = []
+        for x in items:
+            dd = {"a": x.a, "b": x.b}
+            if reset:
+                dd["reset"] = 1
+            ins.append(dd)
+        st, r = call(S.dec, ins if isinstance(v, list) else ins[0])
+        if st == "exc":
+            return fail("C19/decode-raised:%s" % type(r).__name__, input=ins, exc=r)
+        rs = r if isinstance(v, list) else [r]
+        for x, y in zip(items, rs):
+            wa = -1 if reset else x.a
+            if y.a != wa or y.b != 100:
+                return fail("C19/hook-return-value-not-used:deserialize", input=ins, got=y, want=(wa, 100), reset=reset)
+    return True
+
+
 def main(S, env):
+    if S.repl:
+        return repl_main(S, env)
     v = S.node.make(env)
     del LOG[:]
     ctxobj = object()
